@@ -24,17 +24,17 @@ PROPS = {
     'C01': dict(muh={'tlsf': MUH_TLSF, 'linear': MUH_LIN}),
     'C02': dict(vamh=dict(profiles=VAMH_ALL), muh={'tlsf': ['basic', 'align'], 'linear': ['basic', 'upper']}),
     'C03': dict(muh={'tlsf': MUH_TLSF, 'linear': MUH_LIN}, vamh=dict(profiles=['basic', 'pools', 'defrag'])),
-    'C04': dict(vamh=dict(profiles=VAMH_ALL, faults=['basic', 'pools']), eng={'devh': ['budget']}),
+    'C04': dict(vamh=dict(profiles=VAMH_ALL, faults=['basic', 'pools']), eng={'devh': ['limit', 'count', 'allocfault', 'budgetext']}),
     'C05': dict(muh={'tlsf': MUH_TLSF}),
     'C06': dict(muh={'tlsf': MUH_TLSF, 'linear': MUH_LIN}),
     'C07': dict(vamh=dict(profiles=['defrag', 'pools', 'gran']), eng={'dfh': None}),
-    'C08': dict(vamh=dict(profiles=VAMH_ALL), eng={'devh': ['sync']}),
+    'C08': dict(vamh=dict(profiles=VAMH_ALL), eng={'devh': ['basic', 'hyst', 'persist', 'mapfault', 'malformed']}),
     'C09': dict(muh={'tlsf': ['gran', 'basic'], 'linear': ['gran', 'upper', 'ring']}, vamh=dict(profiles=['gran', 'defrag'])),
-    'C10': dict(vamh=dict(profiles=['basic'], faults=['basic', 'map', 'pools', 'limits', 'defrag']), eng={'devh': None}),
-    'C11': dict(vamh=dict(profiles=['limits', 'pools', 'basic']), eng={'devh': ['budget']}),
+    'C10': dict(vamh=dict(profiles=['basic'], faults=['basic', 'map', 'pools', 'limits', 'defrag']), eng={'devh': ['mapfault', 'allocfault', 'limit']}),
+    'C11': dict(vamh=dict(profiles=['limits', 'pools', 'basic']), eng={'devh': ['limit', 'count', 'allocfault']}),
     'C12': dict(vamh=dict(profiles=['basic'], race=True)),
     'C13': dict(muh={'tlsf': MUH_TLSF, 'linear': MUH_LIN}, vamh=dict(profiles=VAMH_ALL)),
-    'C14': dict(vamh=dict(profiles=['map', 'defrag', 'basic', 'pools']), eng={'devh': ['sync']}),
+    'C14': dict(vamh=dict(profiles=['map', 'defrag', 'basic', 'pools']), eng={'devh': ['basic', 'hyst', 'persist', 'mapfault']}),
     'C15': dict(eng={'dfh': None}, vamh=dict(profiles=['defrag'])),
     'C16': dict(muh={'linear': MUH_LIN}),
     'C17': dict(muh={'tlsf': MUH_TLSF, 'linear': MUH_LIN}),
@@ -641,7 +641,10 @@ class Check:
     def evidence(self, nviol):
         pr = self.proof
         cov = self.cov
-        level = 'proof'
+        try:
+            level = json.load(open(V + '/bin/levels.json')).get(self.pid, 'proof')
+        except Exception:
+            level = 'proof'
         c = dict(cov)
         c.update(dict(
             obligations=pr['obligations'], discharged=pr['discharged'] if pr.get('ok') else min(pr['discharged'], max(0, pr['obligations'] - 1)),
@@ -656,6 +659,7 @@ class Check:
             ],
             rule='histories generated from one splitmix64 stream per (component, profile) by harness/cmd/muh; distinct = sha1 of CFG+op lines; non-trivial = >=5 ops, >=4 successful results and at least one free',
             proof_ok=bool(pr.get('ok')), proof_problems=pr.get('bad', []), known_findings_hit=len(self.known_hits),
+            explanation='component theorems proved in Coq (obligations/discharged above, checker_cmd) and tied to the code by correspondence; the whole-allocator part of this property is decided by exploration / fault enumeration of the real allocator over the simulated device (evaluations, distribution, vamh keys); see MANIFEST level text',
         ))
         ev = dict(property_id=self.pid, tier=self.tier, seed=self.seed, level=level, coverage=c,
                   assumptions=['Go toolchain, runtime and memory model', 'block size < 2^39 (uint32 first-level bitmap), alignments are powers of two', 'handles passed to operations are live (stale TLSF handles are raw addresses)'],
